@@ -1,15 +1,194 @@
 package main
 
 import (
+	"flag"
 	"fmt"
-	"golang.org/x/tools/go/packages"
+	"os"
+	"path/filepath"
+	"runtime"
+	"sort"
+	"strconv"
+	"strings"
+	"time"
+
 	"golang.org/x/tools/go/ssa"
-	"golang.org/x/tools/go/ssa/ssautil"
 )
 
+var verifDir = "/verif"
+
 func main() {
-	_ = packages.Load
-	_ = ssa.BuilderMode(0)
-	_ = ssautil.AllPackages
-	fmt.Println("ok")
+	if len(os.Args) < 2 {
+		fmt.Fprintln(os.Stderr, "usage: gosx run|check|replay|selftest …")
+		os.Exit(2)
+	}
+	if d := os.Getenv("VERIF_DIR"); d != "" {
+		verifDir = d
+	} else if exe, err := os.Executable(); err == nil {
+		// bin/gosx lives in <verif>/bin
+		d := filepath.Dir(filepath.Dir(exe))
+		if _, err := os.Stat(filepath.Join(d, "harness")); err == nil {
+			verifDir = d
+		}
+	}
+	switch os.Args[1] {
+	case "run":
+		os.Exit(cmdRun(os.Args[2:]))
+	case "check":
+		os.Exit(cmdCheck(os.Args[2:]))
+	case "replay":
+		os.Exit(cmdReplay(os.Args[2:]))
+	default:
+		fmt.Fprintln(os.Stderr, "unknown command", os.Args[1])
+		os.Exit(2)
+	}
+}
+
+type paramFlags map[string]int
+
+func (p paramFlags) String() string { return fmt.Sprint(map[string]int(p)) }
+func (p paramFlags) Set(s string) error {
+	k, v, ok := strings.Cut(s, "=")
+	if !ok {
+		return fmt.Errorf("want k=v")
+	}
+	n, err := strconv.Atoi(v)
+	if err != nil {
+		return err
+	}
+	p[k] = n
+	return nil
+}
+
+// cmdRun is the development entry: explore named harnesses and print a summary.
+func cmdRun(args []string) int {
+	fs := flag.NewFlagSet("run", flag.ExitOnError)
+	repo := fs.String("repo", "/repo", "repository root")
+	target := fs.String("target", "v5", "v5 | legacy | cmd")
+	hs := fs.String("harness", "", "comma-separated harness function names")
+	props := fs.String("props", "", "comma-separated active property ids (default: all)")
+	workers := fs.Int("workers", runtime.NumCPU(), "workers")
+	maxPaths := fs.Int("max-paths", 0, "path cap")
+	budget := fs.Int64("budget", 5_000_000, "instruction budget per path")
+	timeout := fs.Duration("time", 0, "wall-clock limit")
+	solver := fs.String("solver", "z3-new", "z3-new | z3 | cvc5")
+	cross := fs.String("cross", "", "cross-check solver for property queries")
+	verbose := fs.Bool("v", false, "verbose")
+	reverse := fs.Bool("map-reverse", false, "iterate maps in reverse insertion order")
+	showCands := fs.Int("show", 5, "candidates to print")
+	params := paramFlags{}
+	fs.Var(params, "p", "harness parameter k=v (repeatable)")
+	fs.Parse(args)
+
+	ld, err := loadTarget(*repo, *target)
+	if err != nil {
+		fmt.Fprintln(os.Stderr, "LOAD-ERROR:", err)
+		return 2
+	}
+	defer ld.cleanup()
+	cfg := RunConfig{Workers: *workers, Budget: *budget, MaxPaths: *maxPaths, Solver: *solver, Cross: *cross, TimeoutMs: 20000, CapConc: 64, KeepPaths: 5, Verbose: *verbose}
+	if *timeout > 0 {
+		cfg.Deadline = time.Now().Add(*timeout)
+	}
+	cfg.Props = allProps()
+	if *props != "" {
+		cfg.Props = map[string]bool{}
+		for _, p := range strings.Split(*props, ",") {
+			cfg.Props[p] = true
+		}
+	}
+	for _, n := range strings.Split(*hs, ",") {
+		fn := ld.findHarness(n)
+		if fn == nil {
+			fmt.Fprintln(os.Stderr, "no harness function", n)
+			return 2
+		}
+		cfg.Harnesses = append(cfg.Harnesses, HarnessSpec{Name: n, Fn: fn, Params: params, MapReverse: *reverse})
+	}
+	res, err := explore(ld.Loaded, cfg)
+	if err != nil {
+		fmt.Fprintln(os.Stderr, "RUN-ERROR:", err)
+		return 2
+	}
+	printSummary(res)
+	for k, c := range res.Cands {
+		if k >= *showCands {
+			break
+		}
+		fmt.Printf("CANDIDATE %s %s %s: %s\n", c.Harness, c.Kind, c.AssertID, c.Msg)
+		var keys []string
+		for n := range c.Render {
+			keys = append(keys, n)
+		}
+		sort.Strings(keys)
+		for _, n := range keys {
+			fmt.Printf("    %s = %q\n", n, c.Render[n])
+		}
+		fmt.Printf("    vars = %v\n", c.Vars)
+	}
+	return 0
+}
+
+func allProps() map[string]bool {
+	m := map[string]bool{}
+	for k := 1; k <= 20; k++ {
+		m[fmt.Sprintf("C%02d", k)] = true
+	}
+	return m
+}
+
+func printSummary(res *RunResult) {
+	var names []string
+	for n := range res.PerHarness {
+		names = append(names, n)
+	}
+	sort.Strings(names)
+	for _, n := range names {
+		hs := res.PerHarness[n]
+		fmt.Printf("%s: paths=%d status=%v decisions=%d steps=%d max_steps=%d\n", n, hs.Paths, hs.Status, hs.Decisions, hs.Steps, hs.MaxSteps)
+		var rk []string
+		for k := range hs.Reaches {
+			rk = append(rk, k)
+		}
+		sort.Strings(rk)
+		for _, k := range rk {
+			fmt.Printf("    reach %-40s %d\n", k, hs.Reaches[k])
+		}
+	}
+	fmt.Printf("queries: feas sat=%d unsat=%d unknown=%d | prop sat=%d unsat=%d unknown=%d | front-end=%d | solver calls=%d time=%.1fs errors=%d\n",
+		res.Q.FeasSat, res.Q.FeasUnsat, res.Q.FeasUnknown, res.Q.PropSat, res.Q.PropUnsat, res.Q.PropUnknown, res.Q.FrontEnd, res.SolverQ, res.SolverTime.Seconds(), res.SolverErrs)
+	fmt.Printf("candidates=%d known=%d wall=%.1fs\n", len(res.Cands), len(res.Known), res.Wall.Seconds())
+	for _, s := range res.Incomplete {
+		if len(s) > 2000 {
+			s = s[:2000]
+		}
+		fmt.Println("INCOMPLETE:", s)
+	}
+}
+
+type Target struct {
+	*Loaded
+	tmp    string
+	kind   string
+	pkgMap map[string]*ssa.Package
+}
+
+func (t *Target) cleanup() {
+	if t.tmp != "" {
+		os.RemoveAll(t.tmp)
+	}
+}
+
+// findHarness looks a harness function up in the harness package, then in the in-package harness files.
+func (t *Target) findHarness(name string) *ssa.Function {
+	if f := t.harness.Func(name); f != nil {
+		return f
+	}
+	for _, p := range t.prog.AllPackages() {
+		if strings.HasPrefix(p.Pkg.Path(), "github.com/evanphx/json-patch") {
+			if f := p.Func(name); f != nil {
+				return f
+			}
+		}
+	}
+	return nil
 }
